@@ -52,9 +52,10 @@ def spell(a):
     return [a[0]] + [spell(x) if isinstance(x, list) else x for x in a[1:]]
 
 
-def events(r, n, src):
+def events(r, n, src, asked=None):
     from gambatools.regexp_algorithms import regexp_accepts_word, regexp_simplify
-    A = ab.regexp(r)
+    # asked: the tree the constructors were asked to build (they must build THAT expression)
+    A = asked if asked is not None else ab.regexp(r)
     src = dict(src, re=A, n=n)
     multi = any(len(s) > 1 for s in _syms(A))
     syms = sorted({c for s in _syms(A) for c in s}) or ["a"]          # the characters words are made of
@@ -94,8 +95,8 @@ def drive(task):
     elif task["kind"] == "rel_re":
         rng = random.Random(task["seed"])
         for i in range(task["count"]):
-            for r in U.related_regexps(rng, rng.choice(["ab", "ab", "abc"])):
-                yield from events(r, task["n"], {"kind": "re"})
+            for r, asked in U.related_regexps_described(rng, rng.choice(["ab", "ab", "abc"]), ab.regexp):
+                yield from events(r, task["n"], {"kind": "re"}, asked=asked)
     else:
         rng = random.Random(task["seed"])
         for i in range(task["count"]):
